@@ -112,7 +112,14 @@ def _mvm(prop, rec):
     return replay_molfile_vs_mol(prop, rec)
 
 
+def _pair(prop, rec):
+    from .props_e2 import replay_pair
+
+    return replay_pair(prop, rec)
+
+
 REPLAYERS = {
+    "molfile-pair": _pair,
     "molfile-vs-mol": _mvm,
     "string-of-molfile": _strings,
     "respelling": _strings,
